@@ -44,13 +44,13 @@ class CommandOption(AbstractOption):
         if not alias[:1].isalpha():
             raise ValueError("A long option alias must start with a letter.")
 
-        if not re.match(r"^[a-zA-Z0-9\-]+$", alias):
+        if not re.match(r"^[a-zA-Z0-9\-]+\Z", alias):
             raise ValueError(
                 "A long option alias must contain letters, digits and hyphens only."
             )
 
     def _validate_short_alias(self, alias):  # type: (str) -> None
-        if not re.match("^[a-zA-Z]$", alias):
+        if not re.match("^[a-zA-Z]\\Z", alias):
             raise ValueError(
                 'A short option alias must be exactly one letter. Got: "{}"'.format(
                     alias
